@@ -41,6 +41,7 @@ KEY_LOCALDICT = "localdict-cdict-stale-params"
 KEY_CONTIG = "dict-contiguous-with-src"
 KEY_RAWFB = "block-raw-fallback-outcap"
 KEY_CDREF = "cdict-byref-contiguous-ignores-deterministic-switch"
+KEY_COPYPARAMS = "copyCCtx-uses-destination-params"
 R2_WHAT = {
     KEY_GENSEQ: "ZSTD_generateSequences leaves cctx->seqCollector armed: every later frame of the context is stored as raw blocks "
                 "(and its sequences are written into the previous caller's array)",
@@ -51,6 +52,9 @@ R2_WHAT = {
     KEY_CDREF: "a dictionary held by reference that ends exactly where the input starts: when the frame copies the CDict the window "
                "continues the dictionary as contiguous prefix, and ZSTD_c_deterministicRefPrefix=1 does not prevent it "
                "(ms->forceNonContiguous is only set on the load path)",
+    KEY_COPYPARAMS: "ZSTD_copyCCtx builds the copy from the DESTINATION's sticky requestedParams (only cParams, row finder, block "
+                    "splitter, LDM, maxBlockSize and fParams come from the source): the bytes depend on what the destination was "
+                    "configured for before",
     KEY_RAWFB: "one-shot output depends on dstCapacity: ZSTD_entropyCompressSeqStore stores a block raw when the entropy stage "
                "reports dstSize_tooSmall while srcSize <= dstCapacity, although the block compresses with a few more bytes of room",
 }
@@ -614,7 +618,7 @@ def build_group(rng, gid, t, inputs, dicts, want_hex=False, trace=False):
         return [rng.choice([64, 100, 1000, 4200, 20000, 70000]) for _ in range(rng.choice([1, 2, 3]))]
 
     def add(label, cls, ctxkind, hist=False, sa=None, da=None, caps=None, inmode=0, cap=0, contig=False, copy=False, hexout=0,
-            force_fresh=False, route="set", pieces=None, flip=False, d=0):
+            force_fresh=False, route="set", pieces=None, flip=False, d=0, copy_hist=None, copy_reset=False):
         c = new_ctx(ctxkind)
         kinds = []
         if sa is None:
@@ -643,10 +647,13 @@ def build_group(rng, gid, t, inputs, dicts, want_hex=False, trace=False):
         copy_to = -1
         if copy:
             copy_to = new_ctx(rng.choice(["heap", "heapz"]))
-            if rng.random() < 0.5:      # the destination context has a history of its own
+            if (rng.random() < 0.5) if copy_hist is None else copy_hist:      # the destination context has a history of its own
                 hl, k2 = gen_history(rng, inputs, dicts, t, copy_to, fids, 2, allow_abort_tail=False)
                 L.extend(hl)
                 kinds += k2
+                if copy_reset:
+                    L.append("reset %d 3" % copy_to)
+                    kinds.append("dst-reset")
             kinds.append("copyCCtx")
         fid = fids.next()
         is_fresh = not hist and not contig and not copy
@@ -682,6 +689,17 @@ def build_group(rng, gid, t, inputs, dicts, want_hex=False, trace=False):
             cap=rng.choice([0, 0, cbound(n) + 123]) if t.api in ("c2", "cctx") else 0)
     if n > 0 and n <= 200000 and (rng.random() < 0.6 or t.src[2] == "headtail"):
         add("contig", "eq", rng.choice(["heap", "heapz"]), contig=True, caps=small_caps() if is_stream else None)
+    if t.api == "bl":
+        # ZSTD_copyCCtx right after Begin (dictionary loaded): the copy does the work - into a fresh destination and into
+        # destinations with a past (row finder: tag table + hash salt must travel with the hash table, fixed in 34698bc)
+        # ZSTD_copyCCtx builds its own frame parameters (content size from its argument, NO checksum): the copies are compared
+        # with each other (fresh destination = reference), and with the direct execution only when no checksum is requested
+        add("copy0", "copy", rng.choice(["heap", "heapz"]), copy=True, copy_hist=False)
+        # copy1: the destination has a past and is reset (session + parameters) before the copy: strict.
+        # copy2: no reset - ZSTD_copyCCtx_internal starts from the DESTINATION's sticky requestedParams (targetCBlockSize,
+        #        literalCompressionMode ...): finding copyCCtx-uses-destination-params
+        add("copy1", "copy", "heap", copy=True, copy_hist=True, copy_reset=True, hist=rng.random() < 0.3)
+        add("copy2", "copy", "heap", copy=True, copy_hist=True)
     if t.sticky() and rng.random() < 0.6:
         # the same parameters through ZSTD_CCtx_params / ZSTD_CCtx_setParametersUsingCCtxParams
         add("params-route", "eq", rng.choice(["heap", "heapz"]), hist=rng.random() < 0.5, route="params",
@@ -930,6 +948,7 @@ def judge_group(g, res, report):
             report("rt", g, dict(fid=fid, frame=f))
     ref = None
     bigref = None
+    copyref = None
     for fid, label, cls, info in g.variants:
         f = frames.get(fid)
         if f is None:
@@ -947,6 +966,13 @@ def judge_group(g, res, report):
             stats["skipped"] += 1       # static memory too small / a call that needs malloc: not the same call sequence
             continue
         base = ref
+        if cls == "copy":
+            if copyref is None:
+                copyref = f
+                if getattr(g.t, "chk", 0) or (getattr(g.t, "pledge", 0) and not getattr(g.t, "cs", 1)):
+                    continue        # ZSTD_copyCCtx rebuilt the frame parameters: another header / no checksum than the direct run
+            else:
+                base = copyref
         if f["err"] is None and ref["err"] is None and f["sc"] == 1:
             # the ZSTD_e_end shortcut ran ZSTD_compressEnd on the caller's buffer (known finding when bytes differ).
             # Capacities that are ALWAYS sufficient take it at a point fixed by the pieces: strict among themselves.
@@ -1309,7 +1335,13 @@ def r2_lockstep(ctx, model, results, report, rng):
                 S = D + n if adj else D + n + 100000
                 cases.append((16, [100, D, n, S, m, force]))
                 meta.append(("geom", g, (fid, n, m, adj, force, [d["dl"], d["ll"], d["idx"]]), None, None))
-    # ZSTD_minGain through the real decision: covered by (b); plus the window of the placement groups
+    # ZSTD_minGain: the grid every harness process prints at start (taken from the first result)
+    for g, res in results[:1]:
+        for l in res[1].split("\n"):
+            t = l.split(" ")
+            if t[0] == "M" and len(t) == 4:
+                cases.append((15, [int(t[1]), int(t[2])]))
+                meta.append(("mingain", g, (int(t[1]), int(t[2]), int(t[3])), None, None))
     rs = model.run(cases)
     n_ok = 0
     for (kind, g, c, ops, obs), r in zip(meta, rs):
@@ -1329,6 +1361,13 @@ def r2_lockstep(ctx, model, results, report, rng):
             ctx.count(("lockstep-api", min(len(ops), 12), tuple(sorted(set(o[0] for o in ops))), bad is None), nontrivial=len(ops) > 3)
             if bad:
                 report("lockstep", g, dict(model="ApiState.astep (accepted stage ldict lcdict cdict prefix collect)", ctx=c, detail=bad))
+            else:
+                n_ok += 1
+        elif kind == "mingain":
+            ok = r == [c[2]]
+            ctx.count(("lockstep-mingain", c[1], ok), nontrivial=True)
+            if not ok:
+                report("lockstep", g, dict(model="RawFallback.minGain", srcSize=c[0], strategy=c[1], predicted=r, observed=c[2]))
             else:
                 n_ok += 1
         elif kind == "geom":
@@ -1765,6 +1804,34 @@ def r2_groups(rng, gid0, inputs, dicts, tiny, quick):
             else:
                 g.lines.append("G 0 %d %d" % (x[0], x[1]))
                 pending = False
+    # (6) buffer-less Begin with a dictionary + ZSTD_copyCCtx, row-based strategies (levels 5..12 resolve to them)
+    for rep in range(4 if quick else 40):
+        src = rng.choice(texts)
+        d = rng.choice(rawd)
+        dl = min(d[1], rng.choice([5000, 20000]))
+        st = rng.choice([3, 4, 5])
+        cp = (rng.choice([15, 16, 17, 18]), rng.choice([12, 14, 16]), rng.choice([12, 14, 16, 17]), rng.choice([4, 5, 6]), rng.choice([4, 5]), 0, st)
+        t = Target("bl", src, cparams=cp, chk=rng.randint(0, 1), cs=1, pledge=rng.randint(0, 1), chunk=rng.choice([0, 4096, 50000]),
+                   dct=("dict", d[0], dl), bias="r2-copyrow")
+        g = build_group(rng, gid0 + len(gs), t, inputs, dicts, trace=True)
+        g.mt = False
+        gs.append(g)
+    # (7) ZSTD_copyCCtx into a destination that still carries sticky advanced parameters of its own
+    for rep in range(2 if quick else 8):
+        src = rng.choice(texts)
+        small = rng.choice([i for i in inputs if 300 <= i[1] <= 10000])
+        d = rng.choice(rawd)
+        dl = min(d[1], 20000)
+        cp = (17, 14, 15, 4, 5, 0, rng.choice([2, 3, 4, 5]))
+        t = Target("bl", src, cparams=cp, chk=0, cs=1, pledge=1, chunk=0, dct=("dict", d[0], dl), bias="r2-copyparams")
+        g = mk(t, KEY_COPYPARAMS)
+        g.lines += ["ctx 0 heapz 0", "ctx 1 heapz 0", "ctx 2 heapz 0", "ctx 3 heap 0"]
+        g.lines += t.lines(0, 1001, copy_to=1)
+        k, v = rng.choice([("targetCBlockSize", 1340), ("literalMode", 2)])
+        g.lines += ["set 3 %d %d" % (P[k], v), "F 3 1003 %d %d 0 0 0 c2 0" % (small[0], small[1])]
+        g.lines += t.lines(2, 1002, copy_to=3)
+        g.variants = [(1001, "ref", "eq", dict(ctx="heapz", hist=["copyCCtx"])),
+                      (1002, "copy2", "eq", dict(ctx="heap", hist=["copyCCtx", "dst-sticky-" + k]))]
     # (4) one-shot compression of tiny inputs with every capacity from the compressed size upwards
     t = Target("c2", (tiny[0][0], tiny[0][1], "tiny"), params={"level": 1}, bias="r2-rawfallback")
     g = mk(t, KEY_RAWFB)
@@ -1882,6 +1949,8 @@ def run_(ctx):
                 key = g.r2key
             elif "genseq" in hist:
                 key = KEY_GENSEQ
+            elif detail.get("label") == "copy2":
+                key = KEY_COPYPARAMS
         viol.append((kind, g, detail, key))
 
     known_hits = {}
